@@ -249,8 +249,10 @@ structure PExtS (δ : Type) where
     * payload and byte enables: `ret = reg(ret); retParts[beat.value()] = in` — a register that is rewritten *every* cycle with
       its own value except part `cnt`, which takes the current input (`slots.set cnt …`); parts above `cnt` keep whatever
       earlier groups left there;
-    * sop: `flagInstantSet(in.sop, isLast | eop(inStream))` — `flag' = (flag | sop) & !(isLast | eop)` in every cycle, whether or
-      not anything is valid or transferred (Packet.h:566-569, flag.h:59-66);
+    * sop: output `sopSeen | in.sop`; `ENIF(transfer(inStream)) sopSeen = reg((sopSeen | in.sop) & !(isLast | eop), '0')` — the
+      repaired handler (harness/examples/c16_fix_widthextend_sop.diff.txt). Before the repair it was
+      `flagInstantSet(in.sop, isLast | eop(inStream))`, i.e. the same update but in *every* cycle, valid/transferred or not
+      (Packet.h:566-569, flag.h:59-66), which loses or invents sop — finding, signatures `seq:pext:sop`, `law:pext`, `frame:*`;
     * empty / emptyBits: register `e` (enabled by `transfer(source)`): `e' = (isLast | eop) ? start : e − step`, output `e + in.empty`
       (modulo `emod` = 2^width);  error, txid, eop: from the current beat. -/
 @[reducible] def widthExtendP {α β δ} (ratio : Nat) (d0 : δ) (slotOf : α → δ) (isEop isSop : α → Bool) (empOf : α → Nat)
@@ -267,7 +269,7 @@ structure PExtS (δ : Type) where
     let t := x.valid && (if fin then r else true)
     ⟨if t then (if fin then 0 else s.cnt + 1) else s.cnt,
      s.slots.set s.cnt (slotOf x.data),
-     (s.sopF || isSop x.data) && !fin,
+     if t then (s.sopF || isSop x.data) && !fin else s.sopF,
      if t then (if fin then start else (s.empR + emod - step % emod) % emod) else s.empR⟩
 
 /-! ### finite chains -/
